@@ -7,7 +7,7 @@ import (
 	"net"
 	"time"
 
-	"bufio"
+	"encoding/binary"
 	"io"
 	"io/ioutil"
 )
@@ -25,6 +25,7 @@ type Connection struct {
 
 	// Used to buffer reads
 	readBuffer io.Reader
+	received   []byte // received bytes which are not decrypted yet
 }
 
 // NewConnection returns a hap connection.
@@ -62,30 +63,63 @@ func (con *Connection) EncryptedWrite(b []byte) (int, error) {
 
 // DecryptedRead reads and decrypts bytes from the connection.
 // The method returns the number of read bytes and an error when reading failed.
+//
+// The encrypted stream is decrypted frame by frame. Bytes which were received
+// but do not (yet) make up a complete frame are kept until the rest arrives –
+// independent of how the network splits or merges frames into segments.
 func (con *Connection) DecryptedRead(b []byte) (int, error) {
-	if con.readBuffer == nil {
-		buffered := bufio.NewReader(con.connection)
-		decrypted, err := con.getDecrypter().Decrypt(buffered)
-		if err != nil {
-			if neterr, ok := err.(net.Error); ok && neterr.Timeout() {
-				// Ignore timeout error #77
-			} else {
-				log.Debug.Println("Decryption failed:", err)
-				err = con.connection.Close()
+	for {
+		if con.readBuffer == nil {
+			frame, err := con.readFrame()
+			if err == nil {
+				con.readBuffer, err = con.getDecrypter().Decrypt(bytes.NewReader(frame))
 			}
-			return 0, err
+
+			if err != nil {
+				con.readBuffer = nil
+				if neterr, ok := err.(net.Error); ok && neterr.Timeout() {
+					// Ignore timeout error #77
+				} else {
+					log.Debug.Println("Decryption failed:", err)
+					err = con.connection.Close()
+				}
+				return 0, err
+			}
 		}
 
-		con.readBuffer = decrypted
+		n, err := con.readBuffer.Read(b)
+
+		if n < len(b) || err == io.EOF {
+			con.readBuffer = nil
+		}
+
+		if n > 0 || len(b) == 0 {
+			return n, nil
+		}
+		// The decrypted frame is used up – continue with the next one
 	}
+}
 
-	n, err := con.readBuffer.Read(b)
+// readFrame returns the next complete encrypted frame (length, data and auth tag).
+// Received bytes are kept in con.received until a frame is complete.
+func (con *Connection) readFrame() ([]byte, error) {
+	for {
+		if len(con.received) >= 2 {
+			n := 2 + int(binary.LittleEndian.Uint16(con.received)) + 16
+			if len(con.received) >= n {
+				frame := con.received[:n]
+				con.received = con.received[n:]
+				return frame, nil
+			}
+		}
 
-	if n < len(b) || err == io.EOF {
-		con.readBuffer = nil
+		var buf [2 + crypto.PacketLengthMax + 16]byte
+		n, err := con.connection.Read(buf[:])
+		con.received = append(con.received, buf[:n]...)
+		if n == 0 && err != nil {
+			return nil, err
+		}
 	}
-
-	return n, err
 }
 
 // Write writes bytes to the connection.
